@@ -354,6 +354,7 @@ NAME_POOLS = {
     "special": ["a.b", "(", "+", "a b", "a'", "0", "a1", "10", "-", "b|c", "x/y", "é", "a-", " b", "c ", "\\d"],
 }
 SEPS = ["/", "\\", "-", ".", "|"]
+MULTI_SEPS = ["->", "::", "=>", "//", "-|-"]
 
 # attribute key -> generator of values of ONE type (polars needs homogeneous columns)
 ATTR_TYPES = {
@@ -454,6 +455,9 @@ def gen_opts(rng, attr_keys, height):
 def gen_case(rng, shape_kind=None, pool_name=None, nmax=11):
     shape_kind = shape_kind or rng.choice(["wide", "deep", "deep", "mixed", "mixed", "path", "star"])
     pool_name = pool_name or rng.choice(["distinct", "repeated", "affix", "special"])
+    multi = rng.random() < 0.3            # separator of more than one character
+    if multi and pool_name == "special":  # letter pools: no character of any separator in a name (the guard)
+        pool_name = rng.choice(["distinct", "repeated", "affix"])
     binary = rng.random() < 0.12          # BinaryNode: at most two children, empty slots (None) on one side
     if binary and pool_name == "special":  # numeric names would make `val` an int at some nodes only
         pool_name = "affix"
@@ -472,13 +476,21 @@ def gen_case(rng, shape_kind=None, pool_name=None, nmax=11):
     tree = decorate(rng, shape, pool, attr_keys, rng.choice([0.0, 0.0, 0.2, 0.5]), unique=unique)
     nodes = t_nodes(tree)
     pos = [] if rng.random() < 0.4 else list(rng.choice(nodes)[1])
+    sep = rng.choice(MULTI_SEPS) if multi else rng.choice(SEPS)
+    k3 = multi and rng.random() < 0.2
+    if k3:
+        # K3 territory: no name CONTAINS the separator, but one name ends (the root may also start) with one
+        # of its characters.  The stripped name is the node's old name, which no sibling carries.
+        _, _, node = rng.choice(nodes)
+        ch = rng.choice(sorted(set(sep)))
+        node[0] = ch + node[0] if (node is tree and rng.random() < 0.4) else node[0] + ch
     return {
-        "tree": tree, "sep": rng.choice(SEPS), "pos": pos,
+        "tree": tree, "sep": sep, "pos": pos,
         "opts": gen_opts(rng, attr_keys, t_height(tree)),
         "child_key": rng.choice(["children", "children", "kids", "#c"]),
         "dup": dup,
         "cls": "BinaryNode" if binary else "Node", "right_only": rng.random() < 0.5,
-        "stratum": f"{'bin-' if binary else ''}{shape_kind}/{pool_name}",
+        "stratum": f"{'bin-' if binary else ''}{'k3-' if k3 else 'multi-' if multi else ''}{shape_kind}/{pool_name}",
     }
 
 
@@ -576,11 +588,17 @@ def _multichar(case):
     return len(case["sep"]) != 1
 
 
+def _k3_shape(case):
+    """a multi-character separator one of whose characters starts or ends some name"""
+    sep = case["sep"]
+    return len(sep) > 1 and any(n[2][0][:1] in sep or n[2][0][-1:] in sep for n in t_nodes(case["tree"]))
+
+
 def matches_finding(prop, entry, case, obs, flags):
     # K3: lstrip(sep)/rstrip(sep) (and the pandas / polars string ops) strip a character set; only
     # reachable with a separator of more than one character
     # and only when the model predicts exactly what was observed and the property is what fails
-    return entry.get("id") == "K3-C06" and _multichar(case) and flags == 2
+    return entry.get("id") == "K3-C06" and _k3_shape(case) and flags == 2
 
 
 def shrink_candidates(prop, case):
@@ -664,7 +682,7 @@ def sample(prop, case, obs):
 
 def rule(prop):
     return ("random Node trees (2-11 nodes; shapes wide/deep/mixed/path/star; name pools distinct/repeated/affix/special; "
-            "separators / \\ - . |; typed attributes incl. falsy values, nulls, a private one, different attribute sets per node; "
+            "separators / \\ - . | and, in 30 % of the cases, -> :: => // -|-; typed attributes incl. falsy values, nulls, a private one, different attribute sets per node; "
             "12 % built from BinaryNode with empty left/right slots) x random start node x random option sets "
             "(name/parent/path keys incl. empty, child_key, attr_dict incl. missing attribute and key collision, all_attrs, max_depth, "
             "skip_depth, leaf_only), each run ON ONE TREE OBJECT through the four exporters (three of them twice, results must "
@@ -691,9 +709,14 @@ def trusted_base(prop):
 
 def partial_clauses(prop):
     return [
-        "round trips through dict_to_tree / dataframe_to_tree / polars_to_tree are proved for single-character "
-        "separators occurring in no name (C06_dict_roundtrip, C06_dataframe_roundtrip); for multi-character separators "
-        "the clause is refuted on the model (C06_dict_roundtrip_multichar_refuted = known finding K3-C06)",
+        "round trips through dict_to_tree / dataframe_to_tree / polars_to_tree are proved for separators of ANY positive "
+        "length under the character-wise guard sep_free (sep <> '' and no CHARACTER of sep occurs in a name; names non-empty): "
+        "C06_dict_roundtrip_multi, C06_dataframe_roundtrip_multi, C06_polars_roundtrip_multi, C06_paths_distinct_multi, "
+        "C06_dict_records_node_tree_multi; the one-character theorems (guard: separator not a substring of a name) are their "
+        "special cases.  NOT covered and false on the faithful model: multi-character separators whose characters occur in a "
+        "name without the separator itself occurring (a name starting / ending with such a character is mangled by the "
+        "character-set lstrip/rstrip: C06_dict_roundtrip_multichar_refuted = known finding K3-C06); names that merely contain "
+        "such a character in the middle are outside the proved guard but are not known to fail",
         "frame round trip: equality up to attribute order and without null-valued attributes (frames cannot represent them; "
         "dataframe_to_tree documents that nulls are not set), no attribute called 'path'",
         "round trips are stated for the full export of the whole tree; re-importing a partial export "
@@ -710,11 +733,14 @@ def partial_clauses(prop):
         "outcome depends on pandas' rendering of cells); never generated: attribute values other than int/str/bool/None (floats, "
         "containers, mutable values), non-str names, attribute names that are Node members, negative depths, custom Node "
         "subclasses / node_type=, explicit path_col / attribute_cols of the frame constructors, a constructor separator different "
-        "from the tree's, multi-character separators (one corpus witness only)",
+        "from the tree's; multi-character separators are drawn in 30 % of the cases ('->', '::', '=>', '//', '-|-'), 80 % of "
+        "them with letter-only names (the proved guard), 20 % with one name starting / ending with a separator character "
+        "(K3 territory, excused only when the model agrees and only the round-trip predicate is false)",
     ]
 
 
 def assumptions(prop):
     return ["attribute names are not members of Node (depth, children, sep, ...), max_depth/skip_depth >= 0, "
             "one value type per attribute key (polars columns are homogeneous)",
-            "round trips through path-based constructors are claimed for single-character separators that occur in no name"]
+            "round trips through path-based constructors are claimed for separators none of whose characters occurs in a name "
+            "(proved) and checked against the weaker substring guard (where multi-character separators expose K3-C06)"]
